@@ -28,6 +28,7 @@ func registerC03() {
 		Families: []lib.Family{
 			{Name: "filetypes", N: func(string) uint64 { return 256 }, Run: c03FileType},
 			{Name: "routing", N: func(t string) uint64 { return tierN(t, 17*3000, 17*60000) }, Run: c03Routing},
+			{Name: "dup-fields", N: func(t string) uint64 { return tierN(t, 17*60, 17*2000) }, Run: c03DupFields},
 			{Name: "fileid-change", N: func(t string) uint64 { return tierN(t, 17*400, 17*10000) }, Run: c03FileIdChange},
 		},
 	})
@@ -284,5 +285,74 @@ func c03FileIdChange(c *lib.Ctx, idx uint64) {
 		return
 	}
 	c.Count("second_fileid_accepted_coherent", 1)
+	c.Nontrivial(b)
+}
+
+// c03DupFields: a definition that lists the same field number twice is still a definition of
+// its message: the records written with it are routed like any others. (Which of the two values
+// wins is not part of the property and is not compared.)
+func c03DupFields(c *lib.Ctx, idx uint64) {
+	rng := lib.NewRand("C03.dup-fields", idx)
+	fti := idx % uint64(len(lib.FileTypes))
+	ft := lib.FileTypes[fti].Type
+	hosted := lib.HostedMesgs(ft)
+	if len(hosted) == 0 {
+		return
+	}
+	o := lib.GenOpts{FileType: ft, Mesgs: hosted, Records: 6 + rng.Intn(12), Locals: 1 + rng.Intn(3), Redefine: 30, BigEndian: 50, MaxFields: 3, Serial: true, FixedWidthOnly: true}
+	g := lib.NewPlanGen(rng, o)
+	plan := g.Fill()
+	// duplicate one field (definition entry and its data bytes) in every definition that has one
+	var defs [16]int
+	dup := map[int]int{} // definition record index -> index of the duplicated field
+	for i := range plan.Records {
+		r := &plan.Records[i]
+		if r.IsDef {
+			defs[r.Local] = i
+			if r.Global != 0 && len(r.Fields) > 0 && len(r.Fields) < 250 {
+				k := rng.Intn(len(r.Fields))
+				dup[i] = k
+				r.Fields = append(r.Fields, r.Fields[k])
+			}
+			continue
+		}
+		if k, ok := dup[defs[r.Local]]; ok && plan.Records[defs[r.Local]].IsDef {
+			nd := append([][]byte{}, r.Data...)
+			extra := append([]byte{}, r.Data[k]...)
+			if rng.Chance(1, 2) {
+				for j := range extra {
+					extra[j] ^= 0x01
+				}
+			}
+			nf := len(plan.Records[defs[r.Local]].Fields) - 1
+			// data layout: regular fields, then developer fields: insert after the regular ones
+			nd = append(nd[:nf], append([][]byte{extra}, nd[nf:]...)...)
+			r.Data = nd
+		}
+	}
+	if len(dup) == 0 {
+		return
+	}
+	b := plan.Bytes()
+	c.SetInflight(b)
+	ex, err := lib.Expect(plan, lib.ExpectOpts{})
+	if err != nil || ex.Fail {
+		return // the model does not take the plan: nothing to compare with
+	}
+	f, derr, out := lib.GuardedDecode(b)
+	c.Eval()
+	if out.Panicked || out.Hang {
+		c.Violation(b, "Decode panicked/hung on a stream whose definitions list a field number twice: %s", out.Panic)
+		return
+	}
+	if derr != nil {
+		c.Violation(b, "Decode rejects a stream whose definitions list a field number twice (every record is complete and of the defined size): %v - the messages of the held types never reach their containers", derr)
+		return
+	}
+	if got, want := slotCounts(lib.FileContent(f)), slotCounts(ex.Content); got != want {
+		c.Violation(b, "messages dropped or misrouted when definitions list a field number twice: containers hold %s, the stream has %s", got, want)
+		return
+	}
+	c.Count("streams_with_duplicated_field_numbers", 1)
 	c.Nontrivial(b)
 }
